@@ -510,6 +510,7 @@ func (peer *peer) llgrRestartTimerExpired(family bgp.Family) bool {
 	for i, a := range conf.AfiSafis {
 		if a.State.Family == family {
 			conf.AfiSafis[i].LongLivedGracefulRestart.State.PeerRestartTimerExpired = true
+			conf.AfiSafis[i].LongLivedGracefulRestart.State.Running = false
 		}
 		// read the entry just updated, not the copy the range made before
 		s := conf.AfiSafis[i].LongLivedGracefulRestart.State
@@ -519,6 +520,26 @@ func (peer *peer) llgrRestartTimerExpired(family bgp.Family) bool {
 	}
 	peer.fsm.pConf.Update(&conf)
 	return all
+}
+
+// llgrTimerRunningFamilies splits families by whether their long-lived timer
+// is still running (started and not yet expired).
+func (peer *peer) llgrTimerRunningFamilies(fs []bgp.Family) (running, over []bgp.Family) {
+	conf := peer.fsm.pConf.ReadOnly()
+	for _, f := range fs {
+		isRunning := false
+		for _, a := range conf.AfiSafis {
+			if a.State.Family == f && a.LongLivedGracefulRestart.State.Running {
+				isRunning = true
+			}
+		}
+		if isRunning {
+			running = append(running, f)
+		} else {
+			over = append(over, f)
+		}
+	}
+	return running, over
 }
 
 func (peer *peer) markLLGRStale(fs []bgp.Family) []*table.Path {
